@@ -36,12 +36,15 @@ CLAIMED.update({
     technique="contract-based deductive verification: AST->VC (Python and C), quantified loop invariants, z3"),
  "C02": dict(category="proof",
     text="The receive path is under contract function by function: the header decision of processData is proved equal to "
-         "an RFC 6455 section 5.2/5.5 spec function for all 2^16 header octet pairs, all receiver configurations and all "
-         "extended lengths (fail iff violation, 1002 / drop); close-code and close-reason verdicts (1002/1007), UTF-8 "
+         "an RFC 6455 section 5.2/5.5 (and RFC 7692 section 6: exactly RSV1, only on the first frame of a data message, only "
+         "with a compression extension negotiated) spec function for all 2^16 header octet pairs, all receiver "
+         "configurations with and without an extension, and all extended lengths (fail iff violation, 1002 / drop); close-code and close-reason verdicts (1002/1007), UTF-8 "
          "failure at the first invalid chunk and at an incomplete final code point, ping->pong with equal payload, no "
-         "delivery after failure are postconditions of onCloseFrame/onFrameData/onFrameEnd/processControlFrame/onMessage*.",
-    note=WS_NOTE + " Read-split independence of the payload arm of processData and compressed messages are not covered here.",
-    technique="contract-based deductive verification: AST->VC, spec functions from RFC 6455, z3"),
+         "delivery (messages, pings, pongs) after this side has failed the connection are postconditions of onCloseFrame/onFrameData/onFrameEnd/processControlFrame/onMessage*.",
+    note=WS_NOTE + " Read-split independence of the payload arm of processData is a C01 unit; decompression inside the frame "
+         "hooks is not covered here.",
+    technique="contract-based deductive verification: AST->VC, spec functions from RFC 6455, z3; violating frames replayed "
+              "under three read segmentations on a real client / server pair"),
  "C05": dict(category="proof",
     text="Object invariant (at most one close frame, no data frame after it, CLOSED <=> is_closed completed, onClose at most "
          "once and only in CLOSED) and the forward-only rank are proved for every unit that writes the fields involved "
@@ -69,9 +72,10 @@ CLAIMED.update({
     text="Timer discipline as contracts: every timeout handler drops with the corresponding unclean reason when its "
          "condition still holds and has no effect at all in CLOSED; close/server-drop timers are armed with exactly the "
          "configured delay at the points the property names; pong / traffic cancels the ping timeout and re-arms the next "
-         "ping; _connectionLost cancels what could still act.",
-    note=WS_NOTE + " Arming of the open-handshake timer and the first auto-ping (inside _connectionMade / the handshake "
-         "functions) is not yet under contract.",
+         "ping; _connectionLost cancels what could still act; _connectionMade (both roles) starts a connection CONNECTING "
+         "with no close bookkeeping, no pending ping and exactly the open-handshake timer armed with the configured delay "
+         "(none when that timeout is switched off).",
+    note=WS_NOTE + " Arming of the first auto-ping (inside the handshake functions) is not yet under contract.",
     technique="contract-based deductive verification: ghost timer handles, z3"),
 })
 
@@ -267,7 +271,9 @@ CLAIMED.update({
     note="Trusted: z3, pyvc, int(text) as a function of the text, zlib as recorded constructor calls. Not covered (level "
          "'other'): losslessness of the codecs themselves (zlib, bz2, snappy, brotli are third-party), "
          "_parseExtensionsHeader and the handshake-side extension handling (C07), RSV1 on receive with a negotiated "
-         "extension, streaming send with compression, the bzip2 / snappy / brotli negotiation classes.",
+         "extension inside the frame hooks (the header decision itself -- exactly RSV1, only on the first frame of a data "
+         "message, only with an extension negotiated -- is part of the C02 header unit), streaming send with compression, "
+         "the bzip2 / snappy / brotli negotiation classes.",
     technique="contract-based deductive verification: AST->VC, optional-key dictionaries, contract-level lemma program, z3; "
               "one finite-domain lemma by exhaustive enumeration; send-side counterexamples replayed on a real client / "
               "server pair with real zlib"),
